@@ -1027,6 +1027,8 @@ impl<R: RefCounter, PR: PathRefCounter, H: Header> Memory<R, PR, H> {
   /// ## Safety:
   /// - This method must be invoked in the drop impl of `Arena`.
   pub(crate) unsafe fn unmount(&mut self) {
+    #[cfg(rarena_verif)]
+    crate::verif::on_unmount(self.ptr as usize, self.cap as usize);
     unsafe {
       #[cfg(all(feature = "memmap", not(target_family = "wasm")))]
       if self.lock_meta {
